@@ -59,7 +59,9 @@ def gen_case(r: Any, idx: int) -> dict:
     hot = r.random() < 0.4
     tl = gen_timeline(r, domain, maxlen=6)
     n = sum(1 for m in tl if m[1] == "N")
-    P: dict = {"sched": r.choice(["arg", "sub"])}
+    # "both": the operator gets the lab's scheduler explicitly AND subscribe() hands down a different scheduler object (one that is
+    # never started): "the scheduler" of the statement is the one given to the operator
+    P: dict = {"sched": r.choice(["arg", "sub", "both"]) if op in ("delay", "delay_subscription", "timestamp", "time_interval") else r.choice(["arg", "sub"])}
     if op in ("delay", "delay_subscription"):
         P["d"] = r.choice(DELAYS)
         P["shape"] = r.choice(["int", "float", "td", "abs"])
@@ -72,7 +74,7 @@ def gen_case(r: Any, idx: int) -> dict:
 def build(case: dict, lab: Lab, src: Any) -> Any:
     op, P = case["op"], case["P"]
     T.arm(lab)
-    sch = lab.ts if P["sched"] == "arg" else None
+    sch = lab.ts if P["sched"] in ("arg", "both") else None
     if op == "delay":
         return src.pipe(ops.delay(T.due(lab, P["shape"], rel=P["d"], at=SUB_AT + P["d"]), scheduler=sch))
     if op == "delay_subscription":
@@ -185,7 +187,11 @@ def run_case(seed: int, idx: int, res: UnitResult) -> None:
     case = gen_case(r, idx)
     op, P = case["op"], case["P"]
     msgs, seen = make_input(r, case["tl"], case["hot"])
-    lab, obs, src = run_single(lambda lab, s: build(case, lab, s), msgs, case["hot"], clock=case["clock"])
+    other = None
+    if P["sched"] == "both":
+        other = T.frozen_scheduler
+        res.count("cases_with_a_different_scheduler_at_subscribe")
+    lab, obs, src = run_single(lambda lab, s: build(case, lab, s), msgs, case["hot"], clock=case["clock"], sub_scheduler=other)
     desc = describe(case)
     if T.spun(lab):
         # not judged against the model (times are meaningless once the scheduler spins); reported as its own mechanism
